@@ -33,7 +33,7 @@ class HyperLogLogWCache:
         self.M[j] = max(self.M[j], rho)
 
     def add(self, value):
-        if len(self.warmup_set) < self.warmup_size and not self.hll_flag:
+        if not self.hll_flag and (len(self.warmup_set) < self.warmup_size or value in self.warmup_set):
             self.warmup_set.add(value)
         elif not self.hll_flag:
             if not self.hll_flag:
